@@ -188,10 +188,14 @@ C01_ReplaceInPlace == \A m \in ReplRels :
                \/ FitIn(RAdd(RealAvail(Pre, nr), ph.res), real.res)
 
 (* ====================================================================== C02 *)
+\* judged on the resource types the ask uses: usage that an RM-forced change pushed above the maximum in ANOTHER type is not
+\* made worse by this decision (the statement: "never makes the usage ... exceed")
 C02_Step == \A m \in SchedAllocs : m.app \in AppsOf(Pre) =>
       \A q \in Ancestors(Pre, Pre.apps[m.app].queue) :
-         IF q = "root" THEN FitIn(Pre.queues[q].max, RAdd(Pre.queues[q].alloc, PreAsk(Pre, m).res))
-         ELSE ~Pre.queues[q].hasMax \/ FitInMaxUndef(Pre.queues[q].max, RAdd(Pre.queues[q].alloc, PreAsk(Pre, m).res))
+         LET r == PreAsk(Pre, m).res
+             after == [t \in DOMAIN r |-> Get(Pre.queues[q].alloc, t) + r[t]] IN
+         IF q = "root" THEN FitIn(Pre.queues[q].max, after)
+         ELSE ~Pre.queues[q].hasMax \/ FitInMaxUndef(Pre.queues[q].max, after)
 \* a placeholder replacement is a scheduling decision as well: it is taken without any queue check, which is only sound when
 \* the real allocation is no larger than the placeholder, or every queue on the path has the room for the difference
 C02_ReplaceStep == \A m \in ReplRels :
@@ -321,6 +325,13 @@ C10_Transitions == LET s == St(l) IN \A a \in AppsOf(s) :
 C10_MsgStates == \A m \in Msgs(l) : m.t = "appState" => m.state \in AppStates
 C10_CompletedClean == CompletedClean(St(l))
 C10_Idle == IdleLeavesRunning(St(l))
+C10_CompletingHoldsNoReal == CompletingHoldsNoReal(St(l))
+\* an application that leaves the partition as Completed on its own (timer) held no real allocation and no pending ask
+C10_CompletedHeldNothing == (Step /\ E.op # "removeApp") => \A a \in AppsOf(Pre) \ AppsOf(Post) :
+      (\E i \in 1..Len(Post.done) : Post.done[i] = a \o ":Completed") =>
+         \* (what this very step released, e.g. with its node, does not count)
+         /\ {k \in DOMAIN Pre.apps[a].allocs : ~Pre.apps[a].allocs[k].ph /\ ~\E m \in Msgs(l) : m.t = "release" /\ m.key = k} = {}
+         /\ (E.op \notin {"release", "releaseAll", "removeNode"} => {k \in DOMAIN Pre.apps[a].asks : ~Pre.apps[a].asks[k].allocated} = {})
 C10_LiveHaveQueue == LiveAppsHaveQueue(St(l))
 C10_StateTimer == (Step /\ E.op = "fireStateTimer" /\ E.armed /\ E.was = "Completing" /\ E.app \in AppsOf(Pre)) =>
       ((DOMAIN Pre.apps[E.app].allocs = {} /\ DOMAIN Pre.apps[E.app].asks = {}) =>
@@ -378,6 +389,13 @@ C13_NoHang == ~E.hang
 IsReload == Step /\ E.op = "reload"
 ConfQueue(c, q) == LET S == {i \in 1..Len(c.queues) : c.queues[i].path = q} IN c.queues[CHOOSE i \in S : TRUE]
 ConfPaths(c) == {c.queues[i].path : i \in 1..Len(c.queues)} \cup {"root"}
+\* a dynamic leaf created directly below a configured parent that carries a child template has exactly the template's
+\* limits: a type the template maximum defines - also as 0, "none allowed" - is defined for the queue, a type it omits is not
+C02_Template == \A q \in QueuesOf(St(l)) :
+      LET qq == St(l).queues[q] IN
+      (~qq.managed /\ qq.leaf /\ qq.parent \in ConfPaths(cnf) \ {"root"} /\ ConfQueue(cnf, qq.parent).tmpl) =>
+         LET t == ConfQueue(cnf, qq.parent) IN
+         /\ RDeepEq(qq.max, t.tmplMax) /\ RDeepEq(qq.guar, t.tmplGuar) /\ qq.maxApps = t.tmplMaxApps
 C16_Rejected == (IsReload /\ ~E.ok) =>
       /\ Pre.queues = Post.queues /\ Pre.nodes = Post.nodes /\ Pre.users = Post.users /\ Pre.groups = Post.groups
       /\ AppsNoLog(Pre) = AppsNoLog(Post)
@@ -400,12 +418,36 @@ C16_Applied == (IsReload /\ E.ok) =>
 C16_DrainingNoNewApps == (Step /\ E.op = "addApp") =>
       ((E.queue \in QueuesOf(Pre) /\ Pre.queues[E.queue].status = "Draining" /\ E.app \notin AppsOf(Pre)) =>
           \E m \in Msgs(l) : m.t = "appRejected" /\ m.app = E.app)
+\* "existing ones keep running": an application in a draining leaf is still scheduled.  Judged only in the plainest situation, so
+\* that no legitimate reason for waiting can apply: a scheduling cycle that decides nothing at all (no message, no new
+\* reservation) although an application in a draining leaf has a plain pending ask (no task group, no required node, not
+\* refused anywhere) that fits a schedulable unreserved node and every queue maximum on its path, nothing is reserved anywhere,
+\* no user/group limit and no application limit is configured, and the application is already running.
+PlainFit(s, a, k) ==
+      LET x == s.apps[a].asks[k] IN
+      /\ ~x.allocated /\ ~x.ph /\ x.tg = "" /\ x.reqNode = "" /\ \A n \in NodesOf(s) : <<k, n>> \notin den
+      /\ \E n \in NodesOf(s) : s.nodes[n].sched /\ Len(s.nodes[n].resv) = 0 /\ FitIn(s.nodes[n].avail, x.res) /\ FitIn(RealAvail(s, n), x.res)
+      /\ \A q \in Ancestors(s, s.apps[a].queue) :
+            /\ s.queues[q].status \in {"Active", "Draining"} /\ s.queues[q].maxApps = 0
+            /\ IF q = "root" THEN FitIn(s.queues[q].max, RAdd(s.queues[q].alloc, x.res))
+               ELSE ~s.queues[q].hasMax \/ FitInMaxUndef(s.queues[q].max, RAdd(s.queues[q].alloc, x.res))
+C16_DrainingKeepsScheduling == (Step /\ E.op = "schedule" /\ E.panic = "" /\ Len(E.msgs) = 0) =>
+      ~(/\ \A i \in 1..Len(cnf.queues) : Len(cnf.queues[i].limits) = 0
+        /\ AppResv(Pre) = {} /\ NodeResv(Pre) = {} /\ AppResv(Post) = {}
+        /\ \E a \in AppsOf(Pre) : /\ Pre.apps[a].state = "Running" /\ RZero(Pre.apps[a].phAlloc)
+                                  /\ Pre.queues[Pre.apps[a].queue].status = "Draining"
+                                  /\ \E k \in DOMAIN Pre.apps[a].asks : PlainFit(Pre, a, k))
 \* queues disappear only in a cleaner pass, and only empty draining/dynamic ones
 C16_Removal == Step => \A q \in QueuesOf(Pre) \ QueuesOf(Post) :
       /\ E.op \in {"cleanQueues", "restart", "removeApp", "fireStateTimer", "confirm", "release", "releaseAll", "removeNode", "schedule", "firePhTimer"}
       /\ (Pre.queues[q].status = "Draining" \/ ~Pre.queues[q].managed)
       /\ RZero(Pre.queues[q].alloc) /\ RZero(Pre.queues[q].pending)
       /\ (E.op = "cleanQueues" => \A a \in AppsOf(Pre) : Pre.apps[a].queue # q)
+
+\* the application limit an application's namespace tag asks for is in force on its dynamic (unmanaged) leaf queue
+C11_TagMaxApps == (Step /\ E.op = "addApp" /\ "tagMaxApps" \in DOMAIN E /\ E.app \in AppsOf(Post) /\ E.app \notin AppsOf(Pre)) =>
+      LET q == Post.apps[E.app].queue IN
+      (q \in QueuesOf(Post) /\ ~Post.queues[q].managed) => Post.queues[q].maxApps = E.tagMaxApps
 
 (* ====================================================================== C07 / C08 preemption *)
 PreemptRel == IF Step THEN SelectSeq(E.msgs, LAMBDA m : m.t = "release" /\ m.term = "PREEMPTED_BY_SCHEDULER") ELSE <<>>
@@ -584,7 +626,7 @@ KFAll == /\ KFHit("KF-C01-REQNODE-UNSCHED", KF_ReqNodeUnsched)
 Chk(name, cond) == cond \/ PrintT(<<"FAIL", name, l>>)
 All == /\ KFAll
        /\ Chk("C01_NodeLedger", C01_NodeLedger) /\ Chk("C01_AvailNonNeg", C01_AvailNonNeg) /\ Chk("C01_Step", C01_Step) /\ Chk("C01_ReplaceStep", C01_ReplaceStep) /\ Chk("C01_ReplaceInPlace", C01_ReplaceInPlace)
-       /\ Chk("C02_Step", C02_Step) /\ Chk("C02_ReplaceStep", C02_ReplaceStep) /\ Chk("C02_Headroom", C02_Headroom) /\ Chk("C02_RootMax", C02_RootMax) /\ Chk("C02_Usage", C02_Usage) /\ Chk("C02_NoSilentGrowth", C02_NoSilentGrowth)
+       /\ Chk("C02_Step", C02_Step) /\ Chk("C02_ReplaceStep", C02_ReplaceStep) /\ Chk("C02_Headroom", C02_Headroom) /\ Chk("C02_RootMax", C02_RootMax) /\ Chk("C02_Usage", C02_Usage) /\ Chk("C02_NoSilentGrowth", C02_NoSilentGrowth) /\ Chk("C02_Template", C02_Template)
        /\ Chk("C03_AppLedger", C03_AppLedger) /\ Chk("C03_QueueLedger", C03_QueueLedger) /\ Chk("C03_RootVsNodes", C03_RootVsNodes) /\ Chk("C03_NoOrphans", C03_NoOrphans)
        /\ Chk("C03_Counters", C03_Counters) /\ Chk("C03_Preempting", C03_Preempting) /\ Chk("C03_Drained", C03_Drained)
        /\ Chk("C04_Legal", C04_Legal) /\ Chk("C04_RejectedNoTrace", C04_RejectedNoTrace)
@@ -593,10 +635,10 @@ All == /\ KFAll
        /\ Chk("C07_Victims", C07_Victims) /\ Chk("C07_Asker", C07_Asker) /\ Chk("C07_QueueRules", C07_QueueRules)
        /\ Chk("C08_AskUnder", C08_AskUnder) /\ Chk("C08_VictimOver", C08_VictimOver) /\ Chk("C08_Covers", C08_Covers) /\ Chk("C08_NoEffectNoMark", C08_NoEffectNoMark)
        /\ Chk("C09_Views", C09_Views) /\ Chk("C09_Step", C09_Step) /\ Chk("C09_Released", C09_Released)
-       /\ Chk("C10_Transitions", C10_Transitions) /\ Chk("C10_MsgStates", C10_MsgStates) /\ Chk("C10_CompletedClean", C10_CompletedClean) /\ Chk("C10_Idle", C10_Idle)
+       /\ Chk("C10_Transitions", C10_Transitions) /\ Chk("C10_MsgStates", C10_MsgStates) /\ Chk("C10_CompletedClean", C10_CompletedClean) /\ Chk("C10_Idle", C10_Idle) /\ Chk("C10_CompletingHoldsNoReal", C10_CompletingHoldsNoReal) /\ Chk("C10_CompletedHeldNothing", C10_CompletedHeldNothing)
        /\ Chk("C10_LiveHaveQueue", C10_LiveHaveQueue) /\ Chk("C10_StateTimer", C10_StateTimer) /\ Chk("C10_NoAskAfterTerm", C10_NoAskAfterTerm)
-       /\ Chk("C11_Counts", C11_Counts) /\ Chk("C11_Step", C11_Step)
+       /\ Chk("C11_Counts", C11_Counts) /\ Chk("C11_Step", C11_Step) /\ Chk("C11_TagMaxApps", C11_TagMaxApps)
        /\ Chk("C12_NothingRejected", C12_NothingRejected) /\ Chk("C12_Nodes", C12_Nodes) /\ Chk("C12_Apps", C12_Apps) /\ Chk("C12_SameAsOld", C12_SameAsOld)
        /\ Chk("C13_NoPanic", C13_NoPanic) /\ Chk("C13_BadUnchanged", C13_BadUnchanged) /\ Chk("C13_BadRejected", C13_BadRejected) /\ Chk("C13_NoHang", C13_NoHang)
-       /\ Chk("C16_Rejected", C16_Rejected) /\ Chk("C16_Preserve", C16_Preserve) /\ Chk("C16_Applied", C16_Applied) /\ Chk("C16_DrainingNoNewApps", C16_DrainingNoNewApps) /\ Chk("C16_Removal", C16_Removal)
+       /\ Chk("C16_Rejected", C16_Rejected) /\ Chk("C16_Preserve", C16_Preserve) /\ Chk("C16_Applied", C16_Applied) /\ Chk("C16_DrainingNoNewApps", C16_DrainingNoNewApps) /\ Chk("C16_Removal", C16_Removal) /\ Chk("C16_DrainingKeepsScheduling", C16_DrainingKeepsScheduling)
 =============================================================================
